@@ -40,6 +40,23 @@ CHECKS = {
         note='trusted: vf/refssh.py + vf/refpeer.py (no asyncssh imports), '
              'cryptography/OpenSSL primitives, OpenSSH 9.2 client',
         design='3/C02'),
+    'C10': dict(
+        level='exploration',
+        technique='runtime monitoring: deterministic work meter '
+                  '(sys.monitoring function-entry + output-byte budgets '
+                  'linear in delivered input, breaks spins), asyncio '
+                  'sanitizer, owner/bystander monitors, documented-'
+                  'exception table for parsers',
+        text='Raw pre-encryption byte strings, an authenticated reference '
+             'peer sending every message class with extreme numeric fields, '
+             'and mutated / impossible-parameter encodings fed to the '
+             'parsers are executed under a linear work budget; nothing may '
+             'reach the loop exception handler, owners must be told once, '
+             'a bystander connection must keep working, parsers may only '
+             'raise their documented error.',
+        note='trusted: budget constants (400k calls + 400/byte; benign '
+             'sessions need < 20k); only library code is counted',
+        design='3/C10'),
     'C11': dict(
         level='exploration',
         technique='runtime monitoring: wire tap with per-exchange key '
